@@ -721,7 +721,8 @@ def main() -> int:
     assumptions = [
         "runs as root with CAP_SYS_CHROOT/CAP_SETUID/CAP_SETGID and ptrace (strace -f, -e inject)",
         "users: setuid=%s setgid=%s; x86-64 glibc CPython issues chroot/setgroups/setregid/setreuid" % (USER, GROUP),
-        "the server is started with a working directory outside the document root",
+        "the server is started with a working directory outside the document root and with "
+        "supplementary groups {0, 4242} (Popen extra_groups), so that clearing them is observable",
         "repo under test: %s" % REPO,
     ]
     mode = os.environ.get("VF_C19_MODE") or ("strace" if (os.geteuid() == 0 and ok) else "inproc")
